@@ -24,7 +24,7 @@ theorem opActs_clean (c : CaseM) (tid : Nat) (o : OpM) (ho : o ∈ c.ops) :
   have rd : ∀ x : Nat, x < 10 → cleanAct (caseCfg c) (.read x) = true := by
     intro x hlt; simp [cleanAct, small_not_mem c x hlt]
   simp only [opActs, List.mem_append] at ha
-  rcases ha with (((((ha | ha) | ha) | ha) | ha) | ha) | ha
+  rcases ha with ((((((ha | ha) | ha) | ha) | ha) | ha) | ha) | ha
   · simp only [List.mem_singleton] at ha; subst ha; exact rd 0 (by omega)
   · split at ha
     · simp only [List.mem_singleton] at ha; subst ha; exact rd 1 (by omega)
@@ -61,6 +61,9 @@ theorem opActs_clean (c : CaseM) (tid : Nat) (o : OpM) (ho : o ∈ c.ops) :
     · simp at ha
   · split at ha
     · simp only [List.mem_singleton] at ha; subst ha; exact rd 3 (by omega)
+    · simp at ha
+  · split at ha
+    · simp only [List.mem_singleton] at ha; subst ha; exact rd 4 (by omega)
     · simp at ha
 
 /-- all actions of all live threads satisfy P -/
